@@ -124,14 +124,26 @@ def main():
 
     # 2. translators + lake build + audit
     tr_status = {}
+    # Isolation between properties: every regenerated model file (lean/EngineModel/Gen/*) is first put
+    # back to its committed content, then only THIS property's translators regenerate theirs from the
+    # working tree of /repo.  Otherwise a translation left behind by another property's check (e.g. of
+    # a source change that breaks that property's proofs) would fail this property's build as well.
+    try:
+        run(["git", "-C", VERIF, "checkout", "--", "lean/EngineModel/Gen"])
+    except Exception:
+        pass
     for name, fn in getattr(prop, "TRANSLATORS", {}).items():
         try:
             tr_status[name] = fn()
         except Exception as e:  # translator crash = unsupported
             tr_status[name] = "unsupported-node: %r" % (e,)
     ev_extra["translators"] = tr_status
-    lb = auditmod.lake_build()
-    ev_extra["lake_build"] = {"ok": lb["ok"], "wall_s": round(lb["wall_s"], 1)}
+    # build what this property needs: its own theorem modules (and everything they import) and the
+    # model driver -- not the proofs of other properties (tools/setup.py builds everything once)
+    own = tuple(getattr(prop, "LEAN_MODULES", []))
+    targets = own + ("modeldrv",)
+    lb = auditmod.lake_build(targets=targets)
+    ev_extra["lake_build"] = {"ok": lb["ok"], "wall_s": round(lb["wall_s"], 1), "targets": list(targets)}
     proof_ok = lb["ok"]
     arep = None
     if not lb["ok"]:
